@@ -260,6 +260,11 @@ class _ReusablePoolExecutor(ProcessPoolExecutor):
                 # terminating it and would neither stop nor join them.
                 if self._flags.broken is None and not self._flags.shutdown:
                     self._adjust_process_count()
+            # Wake up the executor manager thread so that it also watches the
+            # sentinels of the workers that were just spawned.
+            with self._shutdown_lock:
+                if self._executor_manager_thread_wakeup is not None:
+                    self._executor_manager_thread_wakeup.wakeup()
             while not self._flags.broken and not all(
                 p.is_alive() for p in list(self._processes.values())
             ):
